@@ -131,3 +131,55 @@ Proof.
     + destruct lk; cbn in IA; [lia|]. cbn. split; [|reflexivity]. destruct al; [reflexivity|]. specialize (IC eq_refl). lia.
     + cbn. split; [|reflexivity]. destruct al; [reflexivity|]. specialize (IC eq_refl). lia.
 Qed.
+
+(* ------------------------------------------------------------------ several limiters on one store *)
+From GZ Require Import C03.MonitorN.
+
+Lemma nth_set_lim_same : forall s k x m, nth_error s k = Some m -> nth_error (set_lim k x s) k = Some x.
+Proof. induction s as [|y s IH]; intros k x m H; destruct k; cbn in *; try discriminate; eauto. Qed.
+
+Lemma nth_set_lim_other : forall s j k x, j <> k -> nth_error (set_lim j x s) k = nth_error s k.
+Proof.
+  induction s as [|y s IH]; intros j k x H; destruct j, k; cbn; auto; try congruence.
+Qed.
+
+(* FRAME: a step of limiter j's threads does not touch limiter k (j <> k) *)
+Lemma nstep_frame fast s j a k : j <> k -> nth_error (nstep fast s (NLim j a)) k = nth_error s k.
+Proof.
+  intro H. cbn [nstep]. destruct (own_action a); [|reflexivity].
+  destruct (nth_error s j); [|reflexivity]. now apply nth_set_lim_other.
+Qed.
+
+(* what limiter k goes through in a system schedule is its own single-limiter run on ITS part
+   of the schedule (its threads' steps and the store's outages) *)
+Lemma nrun_proj fast : forall sched s k m,
+  nth_error s k = Some m ->
+  nth_error (nrun fast s sched) k = Some (mrun fast m (proj_sched k sched)).
+Proof.
+  induction sched as [|a sched IH]; intros s k m H; cbn [nrun proj_sched]; [exact H|].
+  destruct a as [j a| |].
+  - destruct (Nat.eqb j k) eqn:E; cbn [andb].
+    + apply Nat.eqb_eq in E. subst j. cbn [nstep]. destruct (own_action a) eqn:O.
+      * rewrite H. cbn [mrun]. apply IH. eapply nth_set_lim_same; eauto.
+      * apply IH. exact H.
+    + apply Nat.eqb_neq in E. apply IH. rewrite nstep_frame; auto.
+  - cbn [mrun]. apply IH. cbn [nstep]. rewrite nth_error_map, H. reflexivity.
+  - cbn [mrun]. apply IH. cbn [nstep]. rewrite nth_error_map, H. reflexivity.
+Qed.
+
+(* NO STUCK RESCUE MODE FOR ANY LIMITER OF A STORE (HEAD): limiters with any numbers of request
+   threads, ANY system schedule (steps of any limiter's requests and monitor, store outages);
+   for every limiter k the three statements of [never_stuck_all] hold in the state reached,
+   whatever the other limiters were doing. *)
+Lemma each_limiter_never_stuck_all threads sched k n :
+  nth_error threads k = Some n ->
+  exists m, nth_error (nrun false (ninit threads) sched) k = Some m /\
+    (m_alive m = false -> 1 <= recovery_pending m) /\
+    (quiescent m = true -> m_alive m = true) /\
+    (m_up m = true -> forallb is_idle (m_reqs m) = true ->
+     let m' := mrun false m [AMon; AMon; AMon; AMon] in m_alive m' = true /\ m_mon m' = MNone).
+Proof.
+  intro H. exists (mrun false (minit n) (proj_sched k sched)). split.
+  - apply nrun_proj. unfold ninit. rewrite nth_error_map, H. reflexivity.
+  - apply never_stuck_all.
+Qed.
